@@ -21,6 +21,9 @@ import (
 	"path/filepath"
 	"math/bits"
 	"reflect"
+	"runtime"
+	"sync"
+	"time"
 	"sort"
 	"strings"
 
@@ -35,6 +38,7 @@ func init() {
 	execs["c16.msg"] = execC16Msg
 	execs["c16.tx"] = execC16Tx
 	execs["c16.lib"] = execC16Lib
+	execs["c16.conc"] = execC16Conc
 	execs["c16.htx"] = execC16HistTx
 	execs["c16.hmsg"] = execC16HistMsg
 	gens["C16"] = genC16
@@ -159,6 +163,105 @@ func c16DecodeMsg(dag []Node, root int, withHasher bool) sx.V {
 		return c16Fail("decoded-unhashable-cell")
 	}
 	return c16MsgView(&m, srcHash)
+}
+
+// c16.conc (dag root kind): K goroutines call Hash(false) / Hash(true) on ONE
+// decoded message (kind 0), or Hash() / SourceBoc() on ONE decoded transaction
+// (kind 1; decoded without the Decoder hasher, whose cache is a plain map and
+// documented as single-threaded), started together, for a few rounds.  Every
+// answer must be the sequential answer and the sequential answers afterwards
+// must be unchanged.  Run in the guarded child: a fatal runtime error or a hang
+// is an outcome.  Result: the sequential answers (compared with the model).
+func execC16Conc(in sx.V) sx.V {
+	dag := dagFromSx(in.List[0])
+	root, kind := in.List[1].I(), in.List[2].I()
+	cells, err := buildGo(dag)
+	if err != nil {
+		return sx.A("build-err")
+	}
+	if runtime.GOMAXPROCS(0) < 4 {
+		defer runtime.GOMAXPROCS(runtime.GOMAXPROCS(4))
+	}
+	const K = 8
+	var seq func() (string, bool) // one round of observations by one caller
+	var result func() sx.V
+	if kind == 0 {
+		m := new(tlb.Message)
+		if in.List[1].I()%2 == 0 && len(dag)%2 == 0 {
+			err = tlb.NewDecoder().Unmarshal(cells[root], m)
+		} else {
+			err = tlb.Unmarshal(cells[root], m)
+		}
+		if err != nil {
+			return sx.A("err")
+		}
+		seq = func() (string, bool) {
+			a, b := m.Hash(false), m.Hash(true)
+			return string(a[:]) + string(b[:]), true
+		}
+		result = func() sx.V {
+			a, b := m.Hash(false), m.Hash(true)
+			return sx.L(sx.Bytes(a[:]), sx.Bytes(b[:]))
+		}
+	} else {
+		tx := new(tlb.Transaction)
+		if err = tlb.Unmarshal(cells[root], tx); err != nil {
+			return sx.A("err")
+		}
+		seq = func() (string, bool) {
+			h := tx.Hash()
+			b, e := tx.SourceBoc()
+			return string(h[:]) + string(b), e == nil
+		}
+		result = func() sx.V {
+			h := tx.Hash()
+			b, e := tx.SourceBoc()
+			if e != nil {
+				return sx.L(sx.Bytes(h[:]), sx.A("err"))
+			}
+			return sx.L(sx.Bytes(h[:]), sx.Bytes(b))
+		}
+	}
+	want, wantOK := seq()
+	bad := make([]int, K)
+	rounds := 6
+	perRound := 400
+	if kind == 1 {
+		perRound = 12
+	}
+	deadline := time.Now().Add(1500 * time.Millisecond)
+	for r := 0; r < rounds && time.Now().Before(deadline); r++ {
+		var wg sync.WaitGroup
+		start := make(chan struct{})
+		for g := 0; g < K; g++ {
+			wg.Add(1)
+			go func(g int) {
+				defer wg.Done()
+				defer func() {
+					if recover() != nil {
+						bad[g]++
+					}
+				}()
+				<-start
+				for i := 0; i < perRound; i++ {
+					if got, ok := seq(); got != want || ok != wantOK {
+						bad[g]++
+					}
+				}
+			}(g)
+		}
+		close(start)
+		wg.Wait()
+	}
+	for _, b := range bad {
+		if b > 0 {
+			return c16Fail("concurrent-call-answers-differently")
+		}
+	}
+	if got, ok := seq(); got != want || ok != wantOK {
+		return c16Fail("answer-changed-after-concurrent-calls")
+	}
+	return result()
 }
 
 // c16.lib (dag root target): the root is decoded by a Decoder with a library
@@ -1652,6 +1755,11 @@ func (g *c16Gen) real(budgetMsg, budgetTx, maxMsgBlocks, maxTxBlocks, nHist int)
 		return
 	}
 	g.txHistories(txDags, nHist)
+	g.cellCountBoundaries(txDags)
+	// concurrent Hash / SourceBoc on one decoded transaction
+	for i := 0; i < minInt(len(txDags), g.c.Scale(3, 12)); i++ {
+		g.emitConc(txDags[i], 1, "conc/tx")
+	}
 }
 
 func c16Op(code int, args ...sx.V) sx.V { return sx.L(append([]sx.V{sx.Nat(code)}, args...)...) }
@@ -1815,8 +1923,142 @@ func (g *c16Gen) libraryRoots(n int) {
 	}
 }
 
+func (g *c16Gen) emitConc(dag []Node, kind int, class string) {
+	in := sx.L(dagSx(dag), sx.Nat(0), sx.Nat(kind))
+	out := g.c.EmitGuarded("c16.conc", in, class)
+	if out.Head() == "oracle-fail" {
+		g.c.Fail("c16.conc", in, "C16/"+out.List[1].Atom, out.List[1].Atom)
+	} else if out.IsA("crash") || out.IsA("timeout") || out.IsA("panic") {
+		g.c.Fail("c16.conc", in, "C16/concurrent-calls-"+out.Atom, "concurrent Hash/SourceBoc calls: "+out.Atom)
+	}
+}
+
+// concurrent callers on one decoded external-in message: inline bodies and
+// bodies in a reference, with and without references, with and without anycast
+func (g *c16Gen) concurrentMessages(n int) {
+	r := g.c.R
+	for i := 0; i < n; i++ {
+		pool := c16Pool(r)
+		sp := c16RandSpec(r, len(pool))
+		if i%5 != 4 {
+			sp.Kind = 1
+			sp.Src, sp.Dest = c16RandAddr(r, false, false), c16RandAddr(r, true, false)
+		}
+		sp.BodyRef = i%2 == 0
+		if len(sp.BodyBits) < 8 {
+			sp.BodyBits = randBits(r, 8+r.Intn(300))
+		}
+		dag, used, ok := c16Build(r, sp, pool)
+		if !ok {
+			continue
+		}
+		g.emitConc(dag, 0, fmt.Sprintf("conc/msg/k%d/%s/refs%d", sp.Kind, used, minInt(len(sp.BodyRefs), 2)))
+	}
+}
+
+// c16ChainMsg: a message (external-in, body in a reference) whose body cell is
+// the root of a tree of k more distinct cells
+func c16ChainMsg(r *prng.R, k int, salt int) []Node {
+	sp := c16RandSpec(r, 0)
+	sp.Kind, sp.InitMode, sp.BodyRef, sp.BodyExotic, sp.Extra = 1, 0, true, 0, 0
+	sp.Src, sp.Dest = c16RandAddr(r, false, false), c16RandAddr(r, true, false)
+	sp.BodyBits, sp.BodyRefs = c16U(uint64(salt), 24), nil
+	msg, _, ok := c16Build(r, sp, nil)
+	if !ok {
+		return nil
+	}
+	// msg = [root, body]; below the body cell hang k more cells as a 4-ary tree
+	// (cell j refers to cells 4j+1 .. 4j+4), all different, depth about log4 k
+	base := len(msg) - 1 // tree node 0 is the body cell
+	for j := 1; j <= k; j++ {
+		msg = append(msg, Node{Bits: c16U(uint64(salt), 24) + c16U(uint64(j), 24)})
+	}
+	for j := 0; j <= k; j++ {
+		for c := 4*j + 1; c <= 4*j+4 && c <= k; c++ {
+			msg[base+j].Refs = append(msg[base+j].Refs, base+c)
+		}
+	}
+	return msg
+}
+
+func c16DistinctCells(dag []Node) int {
+	cells, err := buildGo(dag)
+	if err != nil {
+		return -1
+	}
+	hs := boc.NewHasher()
+	seen := map[string]bool{}
+	for _, c := range cells {
+		if h, e := hs.Hash(c); e == nil {
+			seen[string(h)] = true
+		}
+	}
+	return len(seen)
+}
+
+// c16TxWithCells grafts a chain message into a real transaction so that the
+// transaction has exactly [target] distinct cells (what the serialiser counts).
+func c16TxWithCells(r *prng.R, tx []Node, target int) []Node {
+	k := target - len(tx)
+	for try := 0; try < 6 && k >= 0; try++ {
+		msg := c16ChainMsg(r, k, target*7+try)
+		if msg == nil {
+			return nil
+		}
+		d, ok := c16GraftInMsg(tx, msg)
+		if !ok {
+			return nil
+		}
+		n := c16DistinctCells(d)
+		if n == target {
+			return d
+		}
+		k += target - n
+	}
+	return nil
+}
+
+// transactions at the boundaries of the serialiser's size fields: 255 / 256 /
+// 257 distinct cells through the model; 65535 / 65536 / 65537 cells (thorough
+// tier) with the implementation oracles only
+func (g *c16Gen) cellCountBoundaries(txDags [][]Node) {
+	r := g.c.R
+	base := txDags[0]
+	for _, d := range txDags {
+		if len(d) < len(base) {
+			base = d
+		}
+	}
+	for _, target := range []int{255, 256, 257} {
+		if d := c16TxWithCells(r, base, target); d != nil {
+			out := g.emit("c16.tx", d, 0, fmt.Sprintf("cells/%d", target))
+			if out.K != sx.KL || len(out.List) != 3 || out.List[2].K != sx.KL {
+				g.c.Fail("c16.tx", c16Input(d, 0), "C16/cells-boundary", fmt.Sprintf("transaction with %d cells: no source BOC that parses back", target))
+			}
+		} else {
+			g.c.Fail("c16.tx", sx.Nat(target), "C16/generator", "could not build a transaction with that many cells")
+		}
+	}
+	if g.c.Thorough() {
+		for _, target := range []int{65535, 65536, 65537} {
+			d := c16TxWithCells(r, base, target)
+			if d == nil {
+				g.c.Fail("c16.tx", sx.Nat(target), "C16/generator", "could not build a transaction with that many cells")
+				continue
+			}
+			for _, hasher := range []bool{false, true} {
+				if v := c16DecodeTx(d, 0, hasher); v.K != sx.KL || len(v.List) != 3 || v.List[2].K != sx.KL {
+					g.c.Fail("c16.tx", sx.L(sx.Nat(target), sx.B(hasher)), "C16/cells-boundary",
+						fmt.Sprintf("transaction with %d cells (hasher=%v): %s", target, hasher, trunc(v.String(), 80)))
+				}
+			}
+		}
+	}
+}
+
 func genC16(c *Ctx) {
 	g := &c16Gen{c: c}
+	g.concurrentMessages(c.Scale(14, 150))
 	g.libraryRoots(c.Scale(16, 400))
 	g.synthetic(c.Scale(45, 2500))
 	g.special(c.Scale(40, 800))
